@@ -37,7 +37,7 @@ type c04Monitor struct {
 	failed bool
 
 	aheadUntil uint32
-	after  string // "" or "restart-with-generator-ahead-of-clock"
+	after      string // "" or "restart-with-generator-ahead-of-clock"
 }
 
 func (m *c04Monitor) logf(f string, a ...any) {
